@@ -5,6 +5,8 @@ CONSTANTS
   FixHandoff = TRUE
   FixSend = TRUE
   FixReader = FALSE
+  Banned = {}
+  FixFlushOnStop = TRUE
   MaxResets = 1
   WithStop = TRUE
   Det = FALSE
